@@ -85,7 +85,9 @@ func runLocalFlood(in input) lib.Case {
 	floodDone := make(chan struct{})
 	go func() {
 		for i := 1; i < k; i++ {
-			S.Send(V.ServerIdentity, &TMsg{ID: i})
+			if _, err := S.Send(V.ServerIdentity, &TMsg{ID: i}); err != nil {
+				break // the peer is gone: the Send returned, which is all that matters here
+			}
 			atomic.AddInt32(&sent, 1)
 		}
 		close(floodDone)
